@@ -114,10 +114,16 @@ func (g *c11gen) length(class int) int {
 	case 1:
 		return 1
 	}
-	return []int{2, 3, 17, 300, 5000}[g.rng.Intn(5)]
+	// "long lists": a Subset links thousands of blocks in real archives; 8192 / 8193 straddle a common decoder limit
+	lens := []int{2, 3, 17, 300, 5000, 8192, 8193, 20000}
+	if g.class >= 0 {
+		return lens[g.class%len(lens)]
+	}
+	return lens[g.rng.Intn(5)]
 }
 func (g *c11gen) int_(neg bool) int {
-	c := []int{0, 1, 23, 24, 255, 256, 65535, 65536, math.MaxInt32, math.MaxInt32 + 1, math.MaxInt64, g.rng.Intn(1 << 40)}
+	// the schema's Int is signed: negative values are schema-conforming for every integer field
+	c := []int{0, 1, 23, 24, 255, 256, 65535, 65536, math.MaxInt32, math.MaxInt32 + 1, math.MaxInt64, g.rng.Intn(1 << 40), -1, -24, -25, -256, math.MinInt64}
 	if g.class >= 0 && !neg {
 		return c[g.class%len(c)] // every integer of this instance is drawn from one class (classes are enumerated per shape)
 	}
@@ -179,7 +185,7 @@ func (g *c11gen) node(c *c11Case) any {
 		return &ipldbindcode.Entry{Kind: 1, NumHashes: g.int_(false), Hash: h, Transactions: g.links(g.length(c.Nlist))}
 	case "block":
 		shr := ipldbindcode.List__Shredding{}
-		for i := g.length(c.Nlist); i > 0 && len(shr) < 400; i-- {
+		for i := g.length(c.Nlist); i > 0 && len(shr) < 30000; i-- {
 			shr = append(shr, ipldbindcode.Shredding{EntryEndIdx: g.int_(false), ShredEndIdx: []int{-1, g.int_(false)}[g.rng.Intn(2)]})
 		}
 		return &ipldbindcode.Block{Kind: 2, Slot: g.int_(false), Shredding: shr, Entries: g.links(g.length(c.Nlist)),
@@ -337,7 +343,7 @@ func TestVerifC11(t *testing.T) {
 		o := c11Obs{c11Case: c, Case: ci + 1}
 		n := ninst
 		if c.Kind != "transaction" {
-			n = 12 // one instance per integer class
+			n = 17 // one instance per integer class (the list-length classes rotate with it)
 		}
 		for k := 0; k < n; k++ {
 			g.class = -1
